@@ -678,8 +678,18 @@ def transport_run(res, scenario, lost_window, attack, non=False):
 
             async def render_get(self, request):
                 return Message(payload=b"N%d|" % self.n + "&".join(request.opt.uri_query).encode())
+        BIG = bytes((i * 7 + 3) & 0xFF for i in range(2500))
+
+        class Guarded(resource.Resource):
+            """Serves its (block-wise) representation to requests that came in under the security context only."""
+
+            async def render_get(self, request):
+                if not isinstance(request.remote, OSCOREAddress):
+                    return Message(code=codes.UNAUTHORIZED)
+                return Message(payload=BIG)
         site = resource.Site()
         site.add_resource(["r"], R())
+        site.add_resource(["big"], Guarded())
         obs = O()
         site.add_resource(["o"], obs)
         sv = make(b"\x02", b"\x01", None)
@@ -735,7 +745,27 @@ def transport_run(res, scenario, lost_window, attack, non=False):
                 return "error:" + type(f.exception()).__name__
             return bytes(f.result().payload)
         got, want = {}, {}
-        if scenario in ("one", "two-sequential", "two-concurrent"):
+        if scenario == "guarded-blockwise":
+            # a protected block-wise fetch, then requests for its later blocks from the same address but outside the security
+            # context: the block-wise state of the protected exchange is not theirs
+            r1 = ask("big", 1)
+            pump(200)
+            got["protected"] = outcome(r1.response)
+            want["protected"] = BIG
+            for num in (1, 2):
+                m = Message(code=GET, uri_path=["big"], uri_query=["n=1"])
+                m.opt.block2 = (num, False, 6)
+                m.remote = cli.remote(T_SRV)
+                r = cli.ctx.request(m, handle_blockwise=False)
+                pump(60)
+                o_ = outcome(r.response)
+                code = int(r.response.result().code) if r.response.done() and r.response.exception() is None else None
+                if code is not None and code < 128 and isinstance(o_, bytes) and o_ and o_ in BIG:
+                    res.violate(Violation("protected-state-served-unprotected", "an error (the resource turns unprotected requests down)",
+                                          {"code": code, "bytes of the protected representation": len(o_)}, "transports/oscore.py:OSCOREAddress.blockwise_key", case,
+                                          key="guarded-blockwise"))
+                    break
+        elif scenario in ("one", "two-sequential", "two-concurrent"):
             if scenario == "one":
                 r1 = ask("r", 1)
                 pump()
@@ -798,7 +828,7 @@ def transport_run(res, scenario, lost_window, attack, non=False):
             res.violate(Violation("nonce-reused", "every (key, nonce) pair encrypts once", {"nonce": dup[1].hex(), "times": used.count(dup)},
                                   "oscore_sitewrapper.py:render_to_pipe", case, key="transport-nonce"))
         # nothing of the inner messages is on the wire in the clear
-        for d in w.sent:
+        for d in w.sent if scenario != "guarded-blockwise" else ():
             if b"n=1" in d.data or b"n=2" in d.data or b"R|" in d.data or b"|n" in d.data:
                 res.violate(Violation("inner-data-on-the-wire", "only the protected form", d.data.hex(), "transports/oscore.py", case, key="transport-leak"))
                 break
@@ -847,7 +877,7 @@ def job(arg):
                 for rl in sorted({0, 1, maxid, maxid + 1}):
                     if sl >= 0:
                         file_backed(res, alg, sl, rl, None if (sl + rl) % 2 else b"8bytectx")
-        for scenario in ("one", "two-sequential", "two-concurrent", "observe"):
+        for scenario in ("one", "two-sequential", "two-concurrent", "observe", "guarded-blockwise"):
             for lost in (False, True):
                 for attack in (None, "swap") if scenario == "two-concurrent" else (None,):
                     transport_run(res, scenario, lost, attack)
